@@ -231,9 +231,15 @@ def build_driver(prop, driver_c, repo_sources, out_name, extra_flags=(), san=Tru
 # Coq
 
 class CoqLock:
+    """flock per coq sub-directory (Lib, C01, ..., gen, top) so that concurrent checks of
+    different properties do not serialise on each other's proof builds."""
+
+    def __init__(self, name="all"):
+        self.name = name
+
     def __enter__(self):
         os.makedirs(BUILD, exist_ok=True)
-        self.f = open(os.path.join(BUILD, ".coq.lock"), "w")
+        self.f = open(os.path.join(BUILD, ".coq.%s.lock" % self.name), "w")
         fcntl.flock(self.f, fcntl.LOCK_EX)
         return self
 
@@ -242,7 +248,127 @@ class CoqLock:
         self.f.close()
 
 
+def _coq_deps(vfile, cache):
+    """direct MV dependencies (as .v paths relative to coq/) of one file, via coqdep."""
+    if vfile in cache:
+        return cache[vfile]
+    rc, out, err = sh(["coqdep", "-Q", ".", "MV", vfile], cwd=COQ, timeout=120)
+    deps = []
+    for ln in out.split("\n"):
+        if ":" in ln and ln.split(":")[0].strip().split()[0].endswith(".vo"):
+            for d in ln.split(":", 1)[1].split():
+                if d.endswith(".vo"):
+                    dv = os.path.normpath(d[:-1])
+                    if dv != os.path.normpath(vfile) and os.path.exists(os.path.join(COQ, dv)):
+                        deps.append(dv)
+            break
+    cache[vfile] = deps
+    return deps
+
+
+def coq_build(roots, timeout=3000, jobs=8):
+    """Full .vo build (coqc, never -vos) of the given .v files (relative to coq/) and their
+    dependency closure inside the project.  Returns (rc, log)."""
+    from concurrent.futures import ThreadPoolExecutor
+    cache, order, seen = {}, [], set()
+
+    def visit(f):
+        if f in seen:
+            return
+        seen.add(f)
+        for d in _coq_deps(f, cache):
+            visit(d)
+        order.append(f)
+    for r in roots:
+        r = os.path.normpath(r)
+        if r.endswith(".vo"):
+            r = r[:-1]
+        if not os.path.exists(os.path.join(COQ, r)):
+            return 2, "missing coq file %s" % r
+        visit(r)
+
+    def group(f):
+        return f.split(os.sep)[0] if os.sep in f else "top"
+    log, failed = [], set()
+    deadline = time.time() + timeout
+    # groups in topological order of the group dependency graph (acyclic by construction:
+    # top -> Cxx -> gen/Lib); on a cycle fall back to one global group
+    gdeps = {}
+    for f in order:
+        gdeps.setdefault(group(f), set())
+        for d in cache[f]:
+            if group(d) != group(f):
+                gdeps[group(f)].add(group(d))
+    groups, tmp = [], set()
+
+    def gvisit(g, stack):
+        if g in groups:
+            return True
+        if g in stack:
+            return False
+        for d in sorted(gdeps.get(g, ())):
+            if not gvisit(d, stack | {g}):
+                return False
+        groups.append(g)
+        return True
+    acyclic = all(gvisit(g, set()) for g in sorted(gdeps))
+    if not acyclic:
+        groups = ["all"]
+        group = lambda f: "all"  # noqa: E731
+    # groups are visited in dependency order of first appearance; each under its own lock
+    done = set()
+
+    def stale(f):
+        vo = os.path.join(COQ, f + "o")
+        v = os.path.join(COQ, f)
+        if not os.path.exists(vo):
+            return True
+        t = os.path.getmtime(vo)
+        if os.path.getmtime(v) > t:
+            return True
+        for d in cache[f]:
+            dvo = os.path.join(COQ, d + "o")
+            if not os.path.exists(dvo) or os.path.getmtime(dvo) > t:
+                return True
+        return False
+
+    def compile_one(f):
+        if any(d in failed for d in cache[f]):
+            failed.add(f)
+            return
+        if not stale(f):
+            return
+        left = max(5, deadline - time.time())
+        t0 = time.time()
+        rc, out, err = sh(["coqc", "-Q", ".", "MV", "-w", "-all", f], cwd=COQ, timeout=left)
+        log.append("COQC %s (%.1fs)%s" % (f, time.time() - t0, "" if rc == 0 else " FAILED rc=%d" % rc))
+        if rc != 0:
+            failed.add(f)
+            log.append((out + err)[-3000:])
+            try:
+                os.remove(os.path.join(COQ, f + "o"))
+            except OSError:
+                pass
+
+    for g in groups:
+        files = [f for f in order if group(f) == g]
+        with CoqLock(g):
+            # level-parallel inside the group
+            remaining = list(files)
+            while remaining:
+                ready = [f for f in remaining if all((d in done) or group(d) != g for d in cache[f])]
+                if not ready:
+                    ready = remaining[:1]
+                with ThreadPoolExecutor(max_workers=jobs) as ex:
+                    list(ex.map(compile_one, ready))
+                for f in ready:
+                    done.add(f)
+                    remaining.remove(f)
+    return (1 if failed else 0), "\n".join(log)
+
+
 def gen_coqproject():
+    """_CoqProject for editors / coqchk only; the checks build with coq_build."""
     files = []
     for dp, dn, fn in sorted(os.walk(COQ)):
         dn.sort()
@@ -253,17 +379,12 @@ def gen_coqproject():
     p = os.path.join(COQ, "_CoqProject")
     if not os.path.exists(p) or open(p).read() != text:
         open(p, "w").write(text)
-        sh(["coq_makefile", "-f", "_CoqProject", "-o", "Makefile"], cwd=COQ, check=True, timeout=120)
-    elif not os.path.exists(os.path.join(COQ, "Makefile")):
-        sh(["coq_makefile", "-f", "_CoqProject", "-o", "Makefile"], cwd=COQ, check=True, timeout=120)
+    return files
 
 
-def coq_make(targets, timeout=3000, jobs=16):
-    """Full .vo build of the given targets (paths relative to coq/)."""
-    with CoqLock():
-        gen_coqproject()
-        rc, out, err = sh(["make", "-j%d" % jobs, "-k"] + list(targets), cwd=COQ, timeout=timeout)
-    return rc, out + err
+def coq_make(targets, timeout=3000, jobs=8):
+    """Build the given targets (X.vo or X.v, relative to coq/) with their dependencies."""
+    return coq_build([t[:-1] if t.endswith(".vo") else t for t in targets], timeout=timeout, jobs=jobs)
 
 
 FORBIDDEN = re.compile(
